@@ -157,12 +157,12 @@ def _run_external(calls, repo, flavour, tmp):
     env = bootstrap.worker_env({"VERIF_REPO": repo})
     cmd = [bootstrap.PYTHON, "-m", "pgv.kernels", "--run", inp, outp, "--flavour", flavour]
     try:
-        r = subprocess.run(cmd, cwd=bootstrap.VERIF, env=env, capture_output=True, text=True, timeout=240)
+        r = subprocess.run(cmd, cwd=bootstrap.VERIF, env=env, capture_output=True, text=True, timeout=90)
     except subprocess.TimeoutExpired:
         # never a verdict by itself: repeat under a deterministic line-event budget per call (interpreted code only;
         # a hang inside compiled code cannot be counted and stays inconclusive)
         try:
-            r = subprocess.run(cmd + ["--budget", "200000000"], cwd=bootstrap.VERIF, env=env, capture_output=True, text=True,
+            r = subprocess.run(cmd + ["--budget", "30000000"], cwd=bootstrap.VERIF, env=env, capture_output=True, text=True,
                                timeout=3600)
         except subprocess.TimeoutExpired:
             raise RuntimeError("kernel runner (%s) did not finish even under the line budget (inconclusive)" % flavour)
